@@ -9,7 +9,7 @@ import (
 
 func init() {
 	register("C07", propMeta{
-		Explanation: "Decides, on every path of the Tendermint client update: CheckHeaderAndUpdateState fetches the trusted consensus state from the given store at header.TrustedHeight and every store write (metadata, pruning deletes) and the success return are dominated by the nil-error edges of that lookup and of checkValidity(clientState, thatConsensusState, header, ctx.BlockTime()); checkValidity succeeds only past checkTrustedHeader (bytes.Equal(consState.NextValidatorsHash, hash of the validator set decoded from header.TrustedValidators)), past 'header revision == trusted height revision', past '!(header height <= trusted height)' and past the nil-error edge of cometbft light.Verify, whose arguments are bound: trusted header {Height: trusted revision height, Time: consState.Timestamp, NextValidatorsHash: consState.NextValidatorsHash}, trusted validators = the decoded header.TrustedValidators, untrusted header/validators = the decoded header.SignedHeader/ValidatorSet, trusting period, clock drift and trust level of THIS client state, now = the time parameter; ClientKeeper.UpdateClient requires Status == Active and writes client/consensus state only after CheckHeaderAndUpdateState succeeded, storing the returned consensus state under header.GetHeight(); the consensus state built by update() is {header time, header app hash, header next-validators hash}; the only write to LatestHeight is guarded by newHeight.GT(LatestHeight). NOT decided: the threshold arithmetic inside cometbft (trusted), boundary values, the 'if' direction (every valid header is accepted).",
+		Explanation: "Decides, on every path of the Tendermint client update: CheckHeaderAndUpdateState fetches the trusted consensus state from the given store at header.TrustedHeight and every store write (metadata, pruning deletes) and the success return are dominated by the nil-error edges of that lookup and of checkValidity(clientState, thatConsensusState, header, ctx.BlockTime()); checkValidity succeeds only past checkTrustedHeader (bytes.Equal(consState.NextValidatorsHash, hash of the validator set decoded from header.TrustedValidators)), past 'header revision == trusted height revision', past '!(header height <= trusted height)' and past the nil-error edge of cometbft light.Verify, whose arguments are bound: trusted header {Height: trusted revision height, Time: consState.Timestamp, NextValidatorsHash: consState.NextValidatorsHash}, trusted validators = the decoded header.TrustedValidators, untrusted header/validators = the decoded header.SignedHeader/ValidatorSet, trusting period, clock drift and trust level of THIS client state, now = the time parameter; ClientKeeper.UpdateClient requires Status == Active and writes client/consensus state only after CheckHeaderAndUpdateState succeeded, storing the returned consensus state under header.GetHeight() and the returned client state on every accepting path (no success path around the two setters); the consensus state built by update() is {header time, header app hash, header next-validators hash}; the only write to LatestHeight is guarded by newHeight.GT(LatestHeight). NOT decided: the threshold arithmetic inside cometbft (trusted), boundary values, the 'if' direction (every valid header is accepted).",
 		Assumptions: []string{"cometbft light.Verify implements the light-client rule for the arguments it is given"},
 		Trusted:     commonTrusted,
 	}, ruleC07)
